@@ -115,6 +115,90 @@ pub fn c01(run: &mut Run) {
     }
     crate::fuzzdrv::campaign(run, "fz_c01", 1_600_000);
     structural_exhaustive(run, "c01_structural_exhaustive", false);
+    keyframe_counts(run);
+}
+
+/// Timelines with MANY keyframes: counts either side of every width an index could be narrowed to
+/// (2^8, 2^9, 2^12, 2^16) and a few in between; every segment around those indices plus a regular
+/// sample of the rest is evaluated at its midpoint and at its left keyframe and judged by the model.
+fn keyframe_counts(run: &mut Run) {
+    let sizes: Vec<u32> = if run.tier == mv_engine::Tier::Quick && !run.is_replay() { vec![3, 127, 129, 255, 256, 257, 258, 259, 300, 511, 513, 1000] } else { vec![3, 127, 129, 255, 256, 257, 258, 259, 300, 511, 513, 1000, 4095, 4097, 32767, 32769, 65535, 65536, 65537, 65538, 70001] };
+    let variants = 4u64;
+    let total = sizes.len() as u64 * variants;
+    run.enumerate(
+        "c01_keyframe_counts",
+        "keyframe counts n in {3, 127, 129, 255..259, 300, 511, 513, 1000} (thorough: also 4095, 4097, 32767, 32769, 65535..65538, 70001) at positions j/(n-1) x 4 variants (ascending / descending insertion; per-keyframe easings every 50th keyframe; reverse + repeat + delay + start_with): property a on every keyframe, c on every 3rd, b on every 64th, values (37 j mod 101) x 8 so that neighbouring segments differ grossly; every segment for n <= 1100, otherwise the segments around indices 2^8, 2^9, 2^12, 2^15, 2^16, the ends and a stride of n/1500, each at its midpoint and at its left keyframe, judged against the f64 model; non-trivial = every configuration with n >= 127; every index a distinct configuration",
+        total,
+        1,
+        true,
+        move |range, eo| {
+            for idx in range {
+                let n = sizes[(idx / variants) as usize] as usize;
+                let variant = idx % variants;
+                let val = |j: usize| ((j * 37) % 101) as f32 * 8.0;
+                let mut kfs: Vec<KfDesc> = (0..n)
+                    .map(|j| KfDesc {
+                        pos: j as f32 / (n - 1) as f32,
+                        a: Some(val(j)),
+                        b: if j % 64 == 0 { Some(-val(j)) } else { None },
+                        c: if j % 3 == 0 { Some(val(j) as i32 * 3) } else { None },
+                        d: None,
+                        ez: if variant == 2 && j % 50 == 7 { Some([Ez::InQuad, Ez::OutCubic, Ez::InOutSine][(j / 50) % 3]) } else { None },
+                    })
+                    .collect();
+                if variant == 1 {
+                    kfs.reverse();
+                }
+                let timing = if variant == 3 { Timing { cycle: 2.0, delay: 1.0, repeat: Rep::Times(1), reverse: true } } else { Timing { cycle: 1.0, delay: 0.0, repeat: Rep::None, reverse: false } };
+                let desc = TlDesc { timing, default_ez: Ez::Linear, kfs, order: (idx % 4) as u8 };
+                let model = ModelTl::new(&desc);
+                let mut tl = desc.build();
+                let start = Vals { a: 4096.0, b: -2048.0, c: 8192, d: 9 };
+                let with_start = variant == 3;
+                if with_start {
+                    tl.start_with(&P::from_vals(&start));
+                }
+                let mut segs: Vec<usize> = vec![];
+                if n <= 1100 {
+                    segs.extend(0..n - 1);
+                } else {
+                    for c in [0usize, 256, 512, 4096, 32768, 65536, n - 4] {
+                        for j in c.saturating_sub(6)..(c + 6).min(n - 1) {
+                            segs.push(j);
+                        }
+                    }
+                    let stride = (n / 1500).max(1);
+                    segs.extend((0..n - 1).step_by(stride));
+                    segs.sort();
+                    segs.dedup();
+                }
+                let small = serde_json::json!({"index": idx, "keyframes": n, "variant": variant});
+                for &j in &segs {
+                    let (p0, p1) = (j as f32 / (n - 1) as f32, (j + 1) as f32 / (n - 1) as f32);
+                    for pos in [p0, (p0 as f64 * 0.5 + p1 as f64 * 0.5) as f32] {
+                        // times at which the position is `pos`: forward pass of each cycle (and the reverse pass)
+                        let times: Vec<f32> = if variant == 3 { vec![1.0 + pos, 1.0 + (2.0 - pos), 3.0 + pos] } else { vec![pos] };
+                        for t in times {
+                            let mut target = sentinel(5);
+                            tl.update(&mut target, t);
+                            for i in 0..3 {
+                                let st = if with_start { Some(start.get(i)) } else { None };
+                                if let Err(e) = model.judge(i, t, st, target.get(i)) {
+                                    return Err((small.clone(), format!("{n} keyframes, variant {variant}, segment {j}: {e}")));
+                                }
+                                eo.evaluated += 1;
+                            }
+                        }
+                    }
+                }
+                if n >= 127 {
+                    eo.nontrivial += 1;
+                }
+                eo.sample(|| small.clone());
+            }
+            Ok(())
+        },
+    );
 }
 
 /// Exhaustive enumeration of keyframe *structures* on a coarse grid: every non-empty subset of the
